@@ -67,4 +67,127 @@ def runSchedule (max : Nat) (s : List PC) : List Nat → List PC
   | [] => s
   | i :: is => runSchedule max ((stepThread max s i).getD s) is
 
+/-! ### the dispatching loop of `run()` and its exits
+
+```
+err = func() error {
+    var wg sync.WaitGroup
+    defer wg.Wait()                                   -- on EVERY exit of the closure
+    sema := semaphore.NewWeighted(MaxServers)
+    for … each non-empty batch … {
+        if err := sema.Acquire(ctx, 1); err != nil { return err }
+        if !clientProcess.isRunning() { … return err } -- early return: the client is gone
+        wg.Add(1)
+        go func() { defer wg.Done(); defer sema.Release(1); runTestCasesForServer(…) }()
+    }
+    return nil
+}()
+```
+The dispatcher acquires the permit itself and only then spawns the batch thread (`idle → holding`
+is the dispatcher's move); a batch thread starts its server, stops it and waits for its end, releases
+the permit and is `done` (`wg.Done`).  The dispatcher leaves the loop when every batch was dispatched
+or — early — when the client under test is found gone; on either way out it waits until no spawned
+thread is left (`draining`) before the closure, and with it `run()`, returns.  (The permit the
+dispatcher holds on the early return is not given back; the semaphore dies with the closure.  The
+`Acquire` error needs a cancelled context, which only happens after `run()` returned.) -/
+
+inductive DPC
+  | looping    -- in the `for` loop
+  | draining   -- left the loop (either way), in the deferred `wg.Wait()`
+  | returned   -- the closure returned; `run()` goes on to return
+deriving DecidableEq, Repr, Inhabited
+
+structure Sys where
+  threads : List PC   -- one per non-empty batch, in dispatch order; `idle` = not spawned
+  next : Nat          -- the next batch to dispatch
+  disp : DPC
+  clientUp : Bool     -- `clientProcess.isRunning()`
+deriving Repr, Inhabited
+
+inductive Ev
+  | dispatch          -- the dispatcher moves
+  | thread (i : Nat)  -- batch thread i moves
+  | clientDies        -- the client under test terminates (at any time)
+deriving DecidableEq, Repr, Inhabited
+
+/-- `wg` counter is zero: every thread is either not spawned or done -/
+def allDone (ts : List PC) : Bool := ts.all (fun pc => pc == .idle || pc == .done)
+
+def stepDisp (max : Nat) (s : Sys) : Option Sys :=
+  match s.disp with
+  | .looping =>
+    if s.next < s.threads.length then
+      match stepThread max s.threads s.next with       -- `sema.Acquire`: blocks while no permit is free
+      | none => none
+      | some ts =>
+        if s.clientUp then some { s with threads := ts, next := s.next + 1 }   -- spawn
+        else some { s with disp := .draining }                                 -- early return
+    else some { s with disp := .draining }                                     -- `return nil`
+  | .draining => if allDone s.threads then some { s with disp := .returned } else none
+  | .returned => none
+
+/-- a spawned batch thread moves (the permit was acquired for it by the dispatcher) -/
+def stepBatch (max : Nat) (s : Sys) (i : Nat) : Option Sys :=
+  match s.threads[i]? with
+  | some .idle => none
+  | _ => (stepThread max s.threads i).map (fun ts => { s with threads := ts })
+
+def stepSys (max : Nat) (s : Sys) : Ev → Option Sys
+  | .dispatch => stepDisp max s
+  | .thread i => stepBatch max s i
+  | .clientDies => some { s with clientUp := false }
+
+/-- run a schedule; disabled steps are skipped -/
+def execSys (max : Nat) (s : Sys) : List Ev → Sys
+  | [] => s
+  | e :: es => execSys max ((stepSys max s e).getD s) es
+
+def initSys (n : Nat) : Sys := { threads := List.replicate n .idle, next := 0, disp := .looping, clientUp := true }
+
+/-- a fair schedule for `n` batches: `rounds` rounds of (dispatcher, thread 0, …, thread n-1), the
+client dying before round `dies` (if any) -/
+def fairSchedule (n rounds : Nat) (dies : Option Nat) : List Ev :=
+  (List.range rounds).flatMap (fun r =>
+    (if dies == some r then [Ev.clientDies] else []) ++ Ev.dispatch :: (List.range n).map Ev.thread)
+
+/-! ### the start-up handshake of a batch with its server
+
+`runTestCasesForServer`: the reading of the `ServerCompatResponse` is started first (so that a
+server which answers without reading is not blocked), then the `ServerCompatRequest` is written,
+the server's stdin is **closed**, and only then the response is awaited.  A server may legitimately
+read its single request in any of three ways before it answers: not at all, exactly one
+length-prefixed message, or everything up to the end of its input. -/
+
+inductive SrvRead
+  | blind   -- answers without reading
+  | msg     -- answers once the whole request message has arrived
+  | eof     -- answers once its input has ended (after the whole request)
+deriving DecidableEq, Repr, Inhabited
+
+inductive HStep
+  | write   -- write the request
+  | close   -- close the server's stdin
+  | await   -- block until the response has arrived
+deriving DecidableEq, Repr, Inhabited
+
+/-- the server answers in the state (request written?, stdin closed?) -/
+def answersIn (need : SrvRead) (written closed : Bool) : Bool :=
+  match need with
+  | .blind => true
+  | .msg => written
+  | .eof => written && closed
+
+/-- does the runner's program get its response (instead of blocking until the 10 s time-out, after
+which the batch is recorded as a set-up failure and nothing is handed to the client)? -/
+def handshakeFrom (need : SrvRead) : Bool → Bool → List HStep → Bool
+  | _, _, [] => false
+  | _, c, .write :: rest => handshakeFrom need true c rest
+  | w, _, .close :: rest => handshakeFrom need w true rest
+  | w, c, .await :: _ => answersIn need w c
+
+def handshake (need : SrvRead) (prog : List HStep) : Bool := handshakeFrom need false false prog
+
+/-- the order of the steps in `runTestCasesForServer` -/
+def runnerHandshake : List HStep := [.write, .close, .await]
+
 end ConfModel.Run
